@@ -3,12 +3,13 @@
     [Print Assumptions] beneath.  Models: Model/Tokenizer.v, Model/Parser.v, Model/Command.v,
     Model/Printer.v; proofs: Proofs/ParserBasics.v, ExprRoundTrip.v, FuelProofs.v,
     ParserProofs.v, CommandProofs.v, TotalityProofs.v, PanicProofs.v, QueryRoundTrip.v,
-    TokenizerProofs.v, LexProofs.v, CommandRoundTrip.v, CostProofs.v. *)
+    TokenizerProofs.v, LexProofs.v, CommandRoundTrip.v, CostProofs.v,
+    ExprRoundTripG.v, PlotProofs.v, PlotRoundTrip.v (PLOT: Model/PlotQL.v). *)
 From Coq Require Import NArith ZArith List Bool.
-From Snel Require Import Base.Bytes Gen.Params Model.Tokenizer Model.Parser Model.Command Model.Printer
+From Snel Require Import Base.Bytes Gen.Params Model.Tokenizer Model.Parser Model.PlotQL Model.Command Model.Printer
   Proofs.ExprRoundTrip Proofs.FuelProofs Proofs.ParserProofs Proofs.CommandProofs
   Proofs.TotalityProofs Proofs.PanicProofs Proofs.QueryRoundTrip 
-  Proofs.TokenizerProofs Proofs.CommandRoundTrip Proofs.CostProofs.
+  Proofs.TokenizerProofs Proofs.CommandRoundTrip Proofs.CostProofs Proofs.PlotRoundTrip.
 Import ListNotations.
 Open Scope N_scope.
 
@@ -54,6 +55,32 @@ Theorem C17_keywords_ci : forall fx sp sp' e, speller_ok sp -> speller_ok sp' ->
   parse_expr fx (print_expr sp e) = parse_expr fx (print_expr sp' e).
 Proof. exact keywords_ci. Qed.
 Print Assumptions C17_keywords_ci.
+
+(** The same for the FILTER expressions of PLOT, whose grammar (plotql.rs) is a second copy of the
+    or / and / factor rules over its own leaves (comparisons and non-empty IN lists over hyphen-free
+    non-keyword identifiers): print-then-parse is the identity, for every keyword casing ... *)
+Theorem C17_plot_parse_print_expr : forall sp e, speller_ok sp -> wf_pexpr e = true ->
+  plot_filter (print_expr sp e) = Ok e.
+Proof. exact plot_parse_print_expr. Qed.
+Print Assumptions C17_plot_parse_print_expr.
+
+(** ... and NOT > AND > OR, parentheses, right-nesting hold there as well. *)
+Theorem C17_plot_precedence : forall sp, speller_ok sp -> forall a b c,
+  wf_pexpr a = true -> wf_pexpr b = true -> wf_pexpr c = true ->
+  is_factor a = true -> is_factor b = true -> is_factor c = true ->
+  let A := print_expr_at sp 2 a in let B := print_expr_at sp 2 b in let C := print_expr_at sp 2 c in
+  let AND := 32 :: sp K_AND ++ [32] in let OR := 32 :: sp K_OR ++ [32] in let NOT := sp K_NOT ++ [32] in
+  plot_filter (A ++ OR ++ B ++ AND ++ C) = Ok (EOr a (EAnd b c)) /\
+  plot_filter (A ++ AND ++ B ++ OR ++ C) = Ok (EOr (EAnd a b) c) /\
+  plot_filter (NOT ++ A ++ AND ++ B) = Ok (EAnd (ENot a) b) /\
+  plot_filter (NOT ++ A ++ OR ++ B) = Ok (EOr (ENot a) b) /\
+  plot_filter (40 :: A ++ OR ++ B ++ 41 :: AND ++ C) = Ok (EAnd (EOr a b) c) /\
+  plot_filter (NOT ++ 40 :: A ++ AND ++ B ++ [41]) = Ok (ENot (EAnd a b)) /\
+  plot_filter (A ++ AND ++ B ++ AND ++ C) = Ok (EAnd a (EAnd b c)) /\
+  plot_filter (A ++ OR ++ B ++ OR ++ C) = Ok (EOr a (EOr b c)) /\
+  plot_filter (40 :: A ++ AND ++ B ++ 41 :: AND ++ C) = Ok (EAnd (EAnd a b) c).
+Proof. exact plot_precedence_all. Qed.
+Print Assumptions C17_plot_precedence.
 
 (** Printing any well-formed Query command (event sequence, FOR, SINCE, USING, USING TIME, WHERE,
     RETURN, LINKED BY, aggregates, PER, BY, ORDER BY, LIMIT, OFFSET) and parsing the text with
@@ -132,13 +159,16 @@ Proof. exact no_exponential_witness. Qed.
 Print Assumptions C17_no_exponential_witness.
 
 (** Dispatch: some variant of Command has no arm (Batch) ... *)
-Theorem C17_dispatch_refuted : exists k, In k all_kinds /\ dispatch_handled k = false.
-Proof. exact dispatch_refuted. Qed.
+Theorem C17_dispatch_refuted :
+  (exists k, In k all_kinds /\ dispatch_handled k = false) /\
+  (parse_command_cur [66;65;84;67;72;32;91;32;80;73;78;71;32;93] = POk (CBatch [CPing]) /\
+   dispatch_handled (kind_of (CBatch [CPing])) = false).       (* BATCH [ PING ] *)
+Proof. exact (conj dispatch_refuted dispatch_refuted_parsed). Qed.
 Print Assumptions C17_dispatch_refuted.
 
-(** ... and it is the only one; every command returned by the modelled parsers has an arm. *)
+(** ... and it is the only one; every command returned by the modelled parsers, except a batch, has an arm. *)
 Theorem C17_dispatch_outside_known :
   (forall k, k <> KBatch -> dispatch_handled k = true) /\
-  (forall fx s c, parse_command fx s = POk c -> dispatch_handled (kind_of c) = true).
+  (forall fx s c, parse_command fx s = POk c -> is_batch c = false -> dispatch_handled (kind_of c) = true).
 Proof. exact (conj dispatch_others_handled parsed_commands_dispatched). Qed.
 Print Assumptions C17_dispatch_outside_known.
